@@ -50,7 +50,13 @@ def run(rep, tier):
     rep.analysed(unit='hexsim.cpp')
     rep.trusted = ['clang 14 AST', 'boost::format prints its arguments in order', 'ISA opcode table']
     rep.assumptions = ['symbol tables are written by hexasm (ascending offsets, one entry per FUNC/PROC directive: rule R3)']
-    for fn, a in ((rule_prefix, (rep, idx)), (rule_format, (rep, idx)), (rule_symbols, (rep,)), (rule_lookup, (rep, idx)), (rule_symbol_offset, (rep, idx))):
+    def rule_calls_not_elided(rep):
+        from .. import report as _report
+        from . import c01
+        rep.rule('R6', '"the sequence of procedure entries in a trace equals the call sequence of the source": every call statement generates a '
+                 'transfer of control to its callee, whatever the callee\'s body is (import of C01-R15, call-statement instances)', floor=2)
+        c01.rule_variable_slots(_report.Import(rep, 'R6', 'C01', key_filter=lambda r, k: k.startswith('call statement')), cast.load('xcmp.cpp'))
+    for fn, a in ((rule_calls_not_elided, (rep,)), (rule_prefix, (rep, idx)), (rule_format, (rep, idx)), (rule_symbols, (rep,)), (rule_lookup, (rep, idx)), (rule_symbol_offset, (rep, idx))):
         try:
             fn(*a)
         except AnalysisBroken as e:
